@@ -15,6 +15,10 @@ class ParseError(Exception):
         """Collection of 2-tuples of location and message."""
 
 
+""" Constants are emitted as C++ enumerators and used as sizes: what no 64-bit integer holds is refused. """
+CONSTANT_MIN, CONSTANT_MAX = -2 ** 63, 2 ** 64 - 1
+
+
 class ModelError(Exception):
     """ General error for model tree construction errors. """
     pass
@@ -457,7 +461,9 @@ def _collect_constants(nodes_, constants=None, visited=None):
             constants.update(_collect_constants(node_.members, constants, visited))
 
         elif isinstance(node_, Constant):
-            constants[node_.name] = node_.eval_int(constants)
+            constants[node_.name] = value = node_.eval_int(constants)
+            if isinstance(value, int) and not CONSTANT_MIN <= value <= CONSTANT_MAX:
+                raise ModelError("Constant '%s' out of 64-bit range." % node_.name)
 
         elif isinstance(node_, Enum):
             for member in node_.members:
